@@ -5,3 +5,4 @@ import AGV.Props.C11
 #print axioms AGV.Props.C11.c11_poly_spec
 #print axioms AGV.Props.C11.c11_overlap_poly
 #print axioms AGV.Props.C11.c11_poly_partial
+#print axioms AGV.Props.C11.c11_pinned_upper
